@@ -191,3 +191,11 @@ Definition check_tagged_spec := mismatches tagged_spec_ok.
 Definition dot_spec_ok (c : qcfg * list Z * bytes) : bool :=
   let '(cfg, rs, gb) := c in value_is (member_key gb) (flat_map rune_units rs).
 Definition check_dot_spec := mismatches dot_spec_ok.
+
+(* ---- directive prologue: end-to-end model versus api.Transform + node ---- *)
+From V Require Import C01.Directive.
+(* (source body, is the source body strict in node, is the transformed body strict in node) *)
+Definition directive_ok (c : list sstmt * bool * bool) : bool :=
+  let '(src, src_strict, out_strict) := c in
+  Bool.eqb (prologue_strict src) src_strict && Bool.eqb (prologue_strict (roundtrip cfg_default src)) out_strict.
+Definition check_directive := mismatches directive_ok.
